@@ -37,6 +37,17 @@ Definition pack_fg (s : style) : Z := pack_color (sfg s) + (smodes s mod 128) * 
 Definition pack_bg (s : style) : Z := pack_color (sbg s) + (smodes s / 128) * 16777216.
 Definition pack_ul (s : style) : Z := 256.
 
+(* inverse of pack_color / pack_fg / pack_bg on well-formed words *)
+Definition unpack_color (w : Z) : color :=
+  let c := w mod 16777216 in
+  if 2147483648 <=? w then CRgb c
+  else if c =? 256 then CDef
+  else if 512 <=? c then CBright (c - 512)
+  else CIdx c.
+Definition unpack (fgw bgw : Z) : style :=
+  mkStyle (unpack_color fgw) (unpack_color bgw)
+    ((fgw / 16777216) mod 128 + ((bgw / 16777216) mod 128) * 128).
+
 Definition set_mode (i : Z) (s : style) : style :=
   mkStyle (sfg s) (sbg s) (Z.lor (smodes s) (Z.shiftl 1 i)).
 Definition reset_mode (i : Z) (s : style) : style :=
